@@ -35,7 +35,7 @@ KEYS = ["A", "B", "C", "D", "E", "F"]
 PRIMES = [2, 3, 5, 7, 11, 13, 17]
 
 CONFIGS = ["numeric", "numeric_cstr", "named", "named_cstr", "arrhenius", "arrhenius_unique", "arrhenius_param", "ramped_temp",
-           "create_named", "create_arrhenius", "create_named_cstr", "reassign", "subst_vs_constants"]
+           "create_named", "create_arrhenius", "create_named_cstr", "create_named_symbols", "reassign", "subst_vs_constants"]
 
 
 def gen_systems(tier, seed):
@@ -141,7 +141,7 @@ def build_case(rxs, config):
         params = [int(a) for a in A]
         kfun = lambda P: [sp.Integer(int(a)) for a in A]  # noqa
         expected_params = set()
-    elif config in ("named", "named_cstr", "create_named", "create_named_cstr"):
+    elif config in ("named", "named_cstr", "create_named", "create_named_cstr", "create_named_symbols"):
         params = ["k%d" % i for i in range(nr)]
         kfun = lambda P: [P["k%d" % i] for i in range(nr)]  # noqa
         expected_params = set(params)
@@ -195,6 +195,9 @@ def build_case(rxs, config):
             rkw["rates_kw"] = dict(backend=sp)
         if cstr:
             rkw["rates_kw"] = dict(cstr_fr_fc=("feedratio", OrderedDict([(k, "fc_" + k) for k in keys])))
+        if config == "create_named_symbols":
+            # the caller supplies the dependent-variable symbols as a plain mapping, not in substance order
+            rkw["substance_symbols"] = {k: sp.Symbol("c_" + k) for k in reversed(keys)}
         odesys, extra = _create_odesys(rsys, **rkw)
     else:
         if cstr:
@@ -225,6 +228,9 @@ def analyse(rxs, config):
         out.update(status="violation", kind="count", detail="%d equations for %d substances" % (len(odesys.exprs), len(keys)))
         return out
     conc = dict(zip(odesys.names, odesys.dep))
+    if config == "create_named_symbols" and [str(d) for d in odesys.dep] != ["c_" + k for k in keys]:
+        out.update(status="violation", kind="dep-symbols", detail="dependent variables %s do not follow the substance order %s" % (odesys.dep, keys))
+        return out
     P = dict(zip(odesys.param_names, odesys.params))
     P["time"] = odesys.indep
     rates = oracle_rates(rxs, kfun(P), conc)
@@ -287,6 +293,8 @@ def replay(rxs, config):
     if set(odesys.param_names) != set(expected_params):
         bad.append("param_names %s != %s" % (list(odesys.param_names), sorted(expected_params)))
     conc = dict(zip(odesys.names, odesys.dep))
+    if config == "create_named_symbols" and [str(d) for d in odesys.dep] != ["c_" + k for k in keys]:
+        bad.append("dependent variables %s do not follow the substance order %s" % (odesys.dep, keys))
     P = dict(zip(odesys.param_names, odesys.params))
     P["time"] = odesys.indep
     try:
